@@ -20,6 +20,8 @@ def cases(rng, tier):
         yield Case(program=gen.render(fref_program(rng)), tag='fref', nontrivial=True, big=True)
     for i in range(n // 6):
         yield Case(program=identity_program(rng), tag='fn-identity', nontrivial=True, big=True)
+    for i in range(n // 3):
+        yield Case(program=core_program(rng, rng.randint(2, 5)), tag='core-byname', nontrivial=True, big=True)
     for kind, prog in index_programs():
         yield Case(program=prog, tag='index-' + kind, nontrivial=True, big=True)
     # every syntactic form at random (untyped): the model is the oracle, errors included
@@ -56,6 +58,46 @@ def index_programs():
             for i in range(-n - 3, n + 3):
                 yield kind, render(call(e, lit(i)))
                 yield kind + '-closure', render(call(fundef(call(arg(1), arg(0))), lit(i), e))
+
+
+def core_program(rng, depth=4):
+    """a random closed program of the fragment of the call-by-name reference semantics (ByName.BN): integer literals, function
+    definitions and calls, argument references with static and computed positions into any enclosing frame, the Boolean
+    constants, Boolean selection, ㄴ and ㄷ on two integers — typed, so that most programs have a value"""
+    from ..gen import enc
+    def gint(d, scope):
+        c = rng.random()
+        ints = [(fi, pi) for fi, fr in enumerate(reversed(scope)) for pi, ty in enumerate(fr) if ty == 'int']
+        if d <= 0 or c < 0.2:
+            if ints and rng.random() < 0.6:
+                fi, pi = rng.choice(ints)
+                return f"{enc(pi)}ㅇ{enc(fi)}"
+            return enc(rng.randint(-9, 30))
+        if c < 0.4:
+            return f"({gint(d - 1, scope)} {gint(d - 1, scope)} ㄷㅎㄷ)"
+        if c < 0.55:
+            return f"({gint(d - 1, scope)} {gint(d - 1, scope)} {gbool(d - 1, scope)} ㅎㄷ)"
+        if c < 0.7 and ints:      # computed position: (p + 0) selects parameter p of that frame
+            fi, pi = rng.choice(ints)
+            return f"(({enc(pi)} ㄱ ㄷㅎㄷ) ㅇ{enc(fi)})"
+        # a call of a function defined on the spot, with 1–3 parameters (some of them never used: they may even be ill-typed)
+        k = rng.randint(1, 3)
+        tys = [rng.choice(['int', 'int', 'bool']) for _ in range(k)]
+        args = [gint(d - 1, scope) if ty == 'int' else gbool(d - 1, scope) for ty in tys]
+        body = gint(d - 1, scope + [tys])
+        return f"({' '.join(args)} ({body} ㅎ) ㅎ{enc(k)})"
+    def gbool(d, scope):
+        c = rng.random()
+        bools = [(fi, pi) for fi, fr in enumerate(reversed(scope)) for pi, ty in enumerate(fr) if ty == 'bool']
+        if d <= 0 or c < 0.3:
+            if bools and rng.random() < 0.6:
+                fi, pi = rng.choice(bools)
+                return f"{enc(pi)}ㅇ{enc(fi)}"
+            return rng.choice(["(ㅈㅈㅎㄱ)", "(ㄱㅈㅎㄱ)"])
+        if c < 0.7:
+            return f"({gint(d - 1, scope)} {gint(d - 1, scope)} ㄴㅎㄷ)"
+        return f"({gbool(d - 1, scope)} {gbool(d - 1, scope)} {gbool(d - 1, scope)} ㅎㄷ)"
+    return gint(depth, []) if rng.random() < 0.8 else gbool(depth, [])
 
 
 def identity_program(rng):
@@ -278,7 +320,7 @@ SPEC = {
     'relevant': relevant,
     'stream': 'C02 typed/closure program stream (main.main result vs uhdrv main)',
     'rule': 'type-directed random closed programs (closures returned / passed / nested ≤ depth, computed and negative '
-            'indices, Boolean / list / dict / string callables) plus the wild family (untyped random trees over every syntactic form: references in and out of range, any function index, definitions, built-ins at typical and untypical arities, arbitrary callees), closure families, the fref family (2–4 nested functions, the innermost calling any enclosing level by positive or negative function index, directly or through an identity), the fn-identity family (a function value handed on in tail position by 1–3 functions — also after it was evaluated — then compared with itself, used as a dictionary key, called), the index family (list / string / byte string / exception of length 0–3 called with every position from −len−3 to len+2, directly and through a closure), the badref family (one reference made ill-scoped: negative / too large position, non-existent frame) and the scope family (one enclosing closure applied along several argument paths; inner bodies refer to outer parameters statically, as computed positions, from nested functions, outermost-relative); a case is non-trivial when its '
+            'indices, Boolean / list / dict / string callables) plus the wild family (untyped random trees over every syntactic form: references in and out of range, any function index, definitions, built-ins at typical and untypical arities, arbitrary callees), closure families, the fref family (2–4 nested functions, the innermost calling any enclosing level by positive or negative function index, directly or through an identity), the fn-identity family (a function value handed on in tail position by 1–3 functions — also after it was evaluated — then compared with itself, used as a dictionary key, called), the core-byname family (random typed programs of the fragment of the call-by-name reference semantics: literals, definitions, calls with unused parameters, static / computed argument references into any frame, Boolean constants and selection, ㄴ / ㄷ on integers — each also evaluated by the reference evaluator bnEval), the index family (list / string / byte string / exception of length 0–3 called with every position from −len−3 to len+2, directly and through a closure), the badref family (one reference made ill-scoped: negative / too large position, non-existent frame) and the scope family (one enclosing closure applied along several argument paths; inner bodies refer to outer parameters statically, as computed positions, from nested functions, outermost-relative); a case is non-trivial when its '
             'tree has ≥ 8 nodes; distinct by program text',
     'trusted': ['hand-written model UH/Model/{Interp,Builtins,Machine}.lean tied to the code by correspondence only'],
     'assumptions': ['host big integers = Lean Int; IEEE-754 + − × ÷ of the host on both sides'],
